@@ -725,7 +725,7 @@ var childPool = func() []childCfg {
 			TZ:      tzs[i],
 			DelayMs: (i * 7) % 23,
 			Files: map[string]string{
-				"c18-cwd-marker-file.txt":                   fmt.Sprintf("c18-cwd-file-content-%d", i),
+				"c18-cwd-marker-file.txt":                    fmt.Sprintf("c18-cwd-file-content-%d", i),
 				fmt.Sprintf("c18-cwd-marker-only-%d.txt", i): fmt.Sprintf("c18-cwd-other-content-%d", i),
 				"etc/passwd": fmt.Sprintf("c18-marker-passwd-%d:x:0:0::/root:/bin/sh", i),
 			},
@@ -956,7 +956,7 @@ func TestProcesses(t *testing.T) {
 	if evid.Thorough() {
 		nchildren = 5
 	}
-	evid.Check(t, "child-processes", evid.Scale(480, 12000), func(t *rapid.T) {
+	evid.Check(t, "child-processes", evid.Scale(480, 9600), func(t *rapid.T) {
 		c := caseT{Script: genScript(t)}
 		perm := rapid.Permutation([]int{0, 1, 2, 3, 4, 5, 6, 7}).Draw(t, "children")
 		c.Children = perm[:nchildren]
@@ -978,7 +978,7 @@ func TestInProcess(t *testing.T) {
 	if evid.ReplayPath() != "" || os.Getenv("C18_CHILD") != "" {
 		t.Skip()
 	}
-	evid.Check(t, "in-process", evid.Scale(4000, 400000), func(t *rapid.T) {
+	evid.Check(t, "in-process", evid.Scale(4000, 240000), func(t *rapid.T) {
 		c := caseT{Script: genScript(t)}
 		v, err := runCase(c)
 		if err != nil {
